@@ -33,6 +33,8 @@ ASSUMPTIONS = [
 
 ADT = ('MSH|^~\\&|A|B|C|D|20200229||ADT^A01^ADT_A01|1|P|%s\rEVN||20200229\rPID|1||I^^^X||L^F\rPV1|1|I')
 ACK = 'MSH|^~\\&|A|B|||20200229||ACK^R01^ACK|1|P|%s\rMSA|AA|1'
+CUSTOM = 'MSH!$*@%%!A!B!!!20200229!!ACK$R01$ACK!1!P!%s\rMSA!AA!1$x%%y*z'
+ORU = 'MSH|^~\\&|A|B|||20200229||ORU^R01^ORU_R01|1|P|%s\rPID|1\rOBR|1\rOBX|1|ST|C||v'
 MSHONLY = 'MSH|^~\\&|A|B|||20200229||ACK^R01^ACK|1|P|%s'
 
 
@@ -61,6 +63,10 @@ def corpus():
     c['st_er7'] = ('S', lambda v, l: lambda: st_of(v)('x\\y|z#w', highlights=((0, 1), (2, 3))).to_er7())
     # highlight ranges given as a list that both threads pass to their own datatype object (the caller owns the list)
     c['st_shared_hl'] = ('X', lambda v, l: lambda: (st_of(v)('abcdefgh', highlights=SHARED_HL).to_er7(), tuple(SHARED_HL)))
+    # a structure that lists one child name twice (the second occurrence gets a numbered name) and a number with more
+    # significant digits than a default decimal context keeps
+    c['dup_names'] = ('X', lambda v, l: lambda: _dup_group(v, l))
+    c['fac_NMlong'] = ('X', lambda v, l: lambda: datatype_factory('NM', '3.14159265358979323846264338', v, l).to_er7())
     c['subcomp'] = ('M', lambda v, l: lambda: SubComponent(datatype='ST', value='x', version=v, validation_level=l).to_er7())
     c['component'] = ('M', lambda v, l: lambda: _comp(v, l))
     c['field'] = ('M', lambda v, l: lambda: _field(v, l))
@@ -76,6 +82,9 @@ def corpus():
     c['parse_ack'] = ('L', lambda v, l: lambda: _parse(ACK % v, l))
     c['parse_adt'] = ('L', lambda v, l: lambda: _parse(ADT % v, l))
     c['validate'] = ('L', lambda v, l: lambda: _validate(v, l))
+    # a message with its own delimiters, parsed while another thread parses a standard one
+    c['parse_oru'] = ('X', lambda v, l: lambda: _parse_tree(ORU % v, l))
+    c['parse_custom'] = ('X', lambda v, l: lambda: _parse(CUSTOM % v, l))
     return c
 
 
@@ -107,6 +116,12 @@ def _open_field(seg, i, v, l):
     return s.to_er7(), [f.name for f in s.children]
 
 
+def _dup_group(v, l):
+    from hl7apy.core import Group
+    g = Group('NMR_N01_CLOCK_AND_STATS_WITH_NOTES_ALT' if v < '2.7' else 'CSU_C09_STUDY_OBSERVATION', version=v, validation_level=l)
+    return list(g.ordered_children), sorted(g.structure_by_name), sorted((k, tuple(v_)) for k, v_ in g.repetitions.items())
+
+
 def _message(v, l):
     from hl7apy.core import Message
     m = Message('ACK', version=v, validation_level=l)
@@ -118,6 +133,13 @@ def _parse(text, l):
     from hl7apy.parser import parse_message
     m = parse_message(text, validation_level=l)
     return m.to_er7(), report(m)
+
+
+def _parse_tree(text, l):
+    from hl7apy.parser import parse_message
+    from ..structures import parsed_shape
+    m = parse_message(text, validation_level=l)
+    return m.to_er7(), parsed_shape(m)
 
 
 def _validate(v, l):
@@ -232,7 +254,8 @@ def shared_state_functions():
 def harnesses(tier):
     """[(names, [(version, level)...], bound, granularity)]; granularity: 'line' (a point before every line of
     library code), 'instr' (line + every bytecode of the shared-state functions), 'shared' (lines of the code
-    objects that mention process-wide data by name — used for the large bodies only)."""
+    objects that mention process-wide data by name — used for the large bodies only), 'shared-entry' (one point at
+    the entry of every call of such a code object).  An optional fifth element (k, n) shards the exploration."""
     c = corpus()
     S = [n for n in c if c[n][0] == 'S']
     M = [n for n in c if c[n][0] == 'M']
@@ -259,6 +282,13 @@ def harnesses(tier):
     hs.append((('st_shared_hl', 'st_shared_hl'), same2, 2, gran))
     hs.append((('st_shared_hl', 'st_shared_hl'), mixed, 2, gran))
     hs.append((('st_shared_hl', 'st_er7'), same2, 1, gran))
+    hs.append((('dup_names', 'dup_names'), same2, 1, gran))
+    for k in range(12):     # one preemption at the entry of every call that touches process-wide data, in 12 shards
+        hs.append((('parse_custom', 'parse_oru'), [('2.5', TOLERANT), ('2.5', TOLERANT)], 1, 'shared-entry', (k, 12)))
+    hs.append((('dup_names', 'field'), same2, 1, gran))
+    hs.append((('dup_names', 'dup_names'), mixed, 1, gran))
+    hs.append((('fac_NMlong', 'fac_NMlong'), [('2.5', TOLERANT), ('2.5', TOLERANT)], 0, 'line'))
+    hs.append((('fac_NMlong', 'fac_NM'), [('2.5', TOLERANT), ('2.7', TOLERANT)], 1, gran))
     tol2 = [('2.5', TOLERANT), ('2.5', TOLERANT)]
     if q:
         # large bodies: both serial orders (bound 0) in quick; preemptions in thorough
@@ -284,6 +314,8 @@ def install_gran(gran):
         sched.install(instruction_level_for=shared_state_functions())
     elif gran == 'shared':
         sched.install(only=sched.shared_touching_code_objects())
+    elif gran == 'shared-entry':
+        sched.install(only=sched.shared_touching_code_objects(), entry_only=True)
     else:
         sched.install()
 
@@ -322,7 +354,8 @@ def run_unit(unit, tier):
         res = Result()
         cold_unit(unit[1], unit[2], res)
         return res
-    names, cfgs, bound, gran = unit
+    names, cfgs, bound, gran = unit[:4]
+    shard = unit[4] if len(unit) > 4 else None
     res = Result()
     c = corpus()
     install_gran(gran)
@@ -382,8 +415,8 @@ def run_unit(unit, tier):
         return [m for m in makers]
 
     try:
-        n, capped = sched.explore(fresh_bodies, bound, on_exec)
-        if stats['wrote'] and bound < 2 and len(names) == 2 and not res.violations:
+        n, capped = sched.explore(fresh_bodies, bound, on_exec, shard=shard)
+        if stats['wrote'] and bound < 2 and len(names) == 2 and not res.violations and shard is None:
             install_gran('shared')
             n2, capped2 = sched.explore(fresh_bodies, bound + 1, on_exec, max_executions=REEXPLORE_CAP)
             n += n2
